@@ -88,6 +88,27 @@ def run_freq(cfg, values=None, ctx=None):
     stubs = {'eigs': W.eigs, 'eig': W.eig}
     saved = Sym.SQRT_HOOK
     Sym.SQRT_HOOK = W.sqrt_hook
+    saved_rint = Sym.RINT_HOOK
+    if ctx is not None and cfg.get('rounding'):
+        from ..eigstubs import sym_to_z3 as _tz
+        rc = [0]
+
+        seen_r = []
+
+        def rint_hook(y):
+            # rounding to the nearest integer, in linear real arithmetic: a fresh real k with |y - k| <= 1/2 that is MONOTONE with
+            # respect to every other rounded value (y1 <= y2 -> k1 <= k2); ties k1 == k2 with y1 != y2 stay possible
+            if y.is_numeric():
+                return Sym(Fraction(round(y.n)))
+            rc[0] += 1
+            k = z3.Real('rint!%d' % rc[0])
+            yz = _tz(y)
+            ctx.assume(z3.And(2 * yz - 1 <= 2 * k, 2 * k <= 2 * yz + 1))
+            for (y0, k0) in seen_r:
+                ctx.assume(z3.And(z3.Implies(y0 <= yz, k0 <= k), z3.Implies(yz <= y0, k <= k0)))
+            seen_r.append((yz, k))
+            return Sym(k)
+        Sym.RINT_HOOK = rint_hook
     obs = []
     try:
         with Shadow(None, stubs=stubs, policy=(fork_policy if ctx is not None else GenericPolicy())):
@@ -121,6 +142,7 @@ def run_freq(cfg, values=None, ctx=None):
                 eigvals, eigvecs = p.eigvals, p.eigvecs
     finally:
         Sym.SQRT_HOOK = saved
+        Sym.RINT_HOOK = saved_rint
     Kd, Md = dense_of(K), dense_of(M)
     eigvals = np.asarray(eigvals, dtype=object)
     eigvecs = np.asarray(eigvecs, dtype=object)
@@ -292,6 +314,35 @@ def real_replay(cfg, special=None):
     return {'raised': None, 'worst_rel_residual': worst, 'freqs': [complex(x).real for x in vals[:5]]}
 
 
+def real_order_replay(cfg):
+    """real function (dense path: LAPACK returns the eigenvalues of a diagonal pair in diagonal order) with frequencies 0.3147, 0.3104, 0.9:
+    are the returned frequencies ascending?"""
+    import scipy.sparse as sp
+    n, target = max(cfg['n'], 6), cfg['target']
+    om = np.array([0.3147, 0.3104, 0.9] + [2. + k for k in range(n - 3)])
+    K = np.diag(om ** 2)
+    M = np.eye(n)
+    import warnings
+    try:
+        with warnings.catch_warnings():
+            warnings.simplefilter('ignore')
+            if target == 'analysis.freq':
+                from compmech.analysis import freq
+                vals, vecs = freq(sp.csr_matrix(K), sp.csr_matrix(M), sparse_solver=False, silent=True, sort=True, num_eigvalues=n)
+            else:
+                from compmech.panel import Panel
+                p = Panel(a=1., b=1., stack=[0], plyt=1., laminaprop=(1., 1., 0.3), m=1, n=1, mu=1.)
+                p.num_eigvalues = n
+                p.calc_k0 = lambda *a, **k: setattr(p, 'k0', sp.csr_matrix(K))
+                p.calc_kM = lambda *a, **k: setattr(p, 'kM', sp.csr_matrix(M))
+                p.freq(atype=4, sparse_solver=False, silent=True, sort=True)
+                vals = p.eigvals
+    except Exception as e:
+        return {'error': '%s: %s' % (type(e).__name__, e)}
+    vals = np.asarray(vals).real
+    return {'frequencies': [round(float(x), 4) for x in vals[:4]], 'not_ascending': bool((np.diff(vals) < 0).any())}
+
+
 def configs(tier, seed):
     out = []
     quick = tier == 'quick'
@@ -316,6 +367,9 @@ def configs(tier, seed):
                                         'group': '%s:%s' % (target, path), 'variant': '%s/num=%d/n=%d/u=%d/sort=%d' % (path, num, n, u, sort)})
             out.append({'target': target, 'n': 6, 'active': [0, 2, 5], 'num': 2, 'path': 'dense', 'sort': True,
                         'group': '%s:dense-sorted' % target, 'variant': 'dense/num=2/n=6/u=3/sort=1'})
+            # the sort keys are ROUNDED values: two returned frequencies, the rounding modelled (fresh integer within 1/2)
+            out.append({'target': target, 'n': 5, 'active': [1, 3], 'num': 2, 'path': 'dense', 'sort': True, 'rounding': True,
+                        'group': '%s:dense-sorted-rounded-keys' % target, 'variant': 'dense/num=2/n=5/u=2/sort=1/rounded-keys'})
             if target == 'Panel.freq':
                 for path in ('sparse', 'dense'):
                     out.append({'target': target, 'n': 6, 'active': [0, 1, 3, 4], 'num': 2, 'path': path, 'sort': False, 'history': True,
@@ -339,7 +393,7 @@ def main():
     run.bounds = {'sizes_n': sorted({c['n'] for c in cf}), 'num_eigvalues': sorted({c['num'] for c in cf}), 'paths': ['sparse', 'dense', 'dense+reduced_dof'],
                   'sort': [True, False], 'configurations': len(cf)}
     run.assume('matrix entries on the active set are non-zero reals (sums of entries may vanish)', 'ARPACK/LAPACK contract: K_p v = mu M_p v (eigs) resp. -M_p v = nu K_p v (eig) on the matrices passed; mu = w^2, nu = -1/w^2 with w > 0 (positive definite pair)',
-               'rounding inside the sort key is not modelled (identity)', 'reduced_dof presupposes three amplitudes per term, all active')
+               'rounding inside the sort key is modelled (fresh integer within 1/2 of the argument) in the rounded-keys configurations (two returned values), the identity elsewhere', 'reduced_dof presupposes three amplitudes per term, all active')
     run.stubs = ['scipy.sparse.linalg.eigs', 'scipy.linalg.eig', 'sqrt of a solver eigenvalue -> its registered root', 'msg']
     run.outside = ['ARPACK numerics/ordering before sort', 'complex eigenvalues (aerodynamic matrices)', 'sizes above 9', 'agreement of sparse and dense numerical results']
     res = pmap(job, cf)
@@ -353,6 +407,15 @@ def main():
                 run.violation('%s/raises/%s' % (cfg['group'], r['raised'].split(':')[0]), '%s raises for %s: %s' % (cfg['target'], cfg['variant'], real['raised']), rep)
             else:
                 run.harness_error('exception in the symbolic run did not reproduce on the real function: %s %s' % (cfg['variant'], r['raised']))
+            continue
+        if r.get('path_violation') and 'ascending' in r['path_violation']:
+            run.obligations += 1
+            real = real_order_replay(cfg)
+            if real.get('not_ascending'):
+                run.violation('%s/%s' % (cfg['group'], r['path_violation'][:50]), '%s %s: %s; real function with two frequencies closer than the rounding of the sort key: %s' % (
+                    cfg['target'], cfg['variant'], r['path_violation'], real), {'cfg': cfg, 'model': r.get('model'), 'real_function': real})
+            else:
+                run.harness_error('ordering violation did not replay on the real function: %s %s' % (cfg['variant'], real))
             continue
         if r.get('path_violation'):
             run.obligations += 1
